@@ -343,7 +343,7 @@ def finish(rep: Report, obs, level, assumptions) -> int:
     for fn in os.listdir(rdir):
         if fn.startswith(pid + "-"):
             os.remove(os.path.join(rdir, fn))
-    for n, (ob, cex) in enumerate(rep.violations[:12]):
+    for n, (ob, cex) in enumerate(rep.violations[:4]):
         path = os.path.join(VERIF, "evidence", "replays", "%s-%d.json" % (pid, n))
         with open(path, "w") as f:
             json.dump({"property": pid, "obligation": ob.name, "engine": ob.engine,
